@@ -107,11 +107,79 @@ func (p *c15Pipe) snapshot() []c15Call {
 	return append([]c15Call{}, p.calls...)
 }
 
-type c15Mapper struct{ pipe *c15Pipe }
+// c15Gate is the Disconnect pipeline: a pass-through that the harness can arm for one client id; the next
+// Client.close() of that id then parks inside the pipeline until the harness opens the gate. This forces
+// "something else happens while the broker is in the middle of closing a connection" without any sleep.
+type c15Gate struct {
+	mu      sync.Mutex
+	armed   string
+	entered chan struct{}
+	release chan struct{}
+	opened  bool
+}
+
+func (g *c15Gate) Handle(ctx *context.Context) string {
+	req := ctx.GetRequest(context.DefaultNamespace).(*mqttprot.Request)
+	g.mu.Lock()
+	if g.armed != "" && req.Client().ClientID() == g.armed {
+		g.armed = ""
+		ent, rel := g.entered, g.release
+		g.mu.Unlock()
+		close(ent)
+		<-rel
+		return ""
+	}
+	g.mu.Unlock()
+	return ""
+}
+
+func (g *c15Gate) arm(cid string) {
+	g.mu.Lock()
+	g.armed = cid
+	g.entered = make(chan struct{})
+	g.release = make(chan struct{})
+	g.opened = false
+	g.mu.Unlock()
+}
+
+// waitEntered: the armed close() has reached the pipeline (false: it never came within the deadline).
+func (g *c15Gate) waitEntered() bool {
+	g.mu.Lock()
+	ent := g.entered
+	g.mu.Unlock()
+	if ent == nil {
+		return false
+	}
+	select {
+	case <-ent:
+		return true
+	case <-time.After(c15Wait()):
+		c15Timeouts++
+		return false
+	}
+}
+
+func (g *c15Gate) open() {
+	g.mu.Lock()
+	g.armed = ""
+	if g.release != nil && !g.opened {
+		g.opened = true
+		close(g.release)
+	}
+	g.mu.Unlock()
+}
+
+type c15Mapper struct {
+	pipe *c15Pipe
+	gate *c15Gate
+}
 
 func (m *c15Mapper) GetHandler(name string) (context.Handler, bool) {
 	if name == "c15-publish" && m.pipe != nil {
 		return m.pipe, true
+	}
+	if name == "c15-disconnect" && m.gate != nil {
+		return m.gate, true
 	}
 	return nil, false
 }
@@ -122,6 +190,7 @@ type c15Env struct {
 	b     *Broker
 	addr  string
 	pipe  *c15Pipe
+	gate  *c15Gate
 	store storage
 	open  int // sockets whose broker-side connection goroutine must still exist
 	clis  []*c15Cli
@@ -129,12 +198,13 @@ type c15Env struct {
 
 func c15NewEnv(withPipe bool, publishLimit *RateLimit) *c15Env {
 	spec := &Spec{Name: "verif", EGName: "verif", Port: 0, ClientPublishLimit: publishLimit}
-	env := &c15Env{}
-	mapper := &c15Mapper{}
+	env := &c15Env{gate: &c15Gate{}}
+	mapper := &c15Mapper{gate: env.gate}
+	spec.Rules = []*Rule{{When: &When{PacketType: Disconnect}, Pipeline: "c15-disconnect"}}
 	if withPipe {
 		env.pipe = &c15Pipe{}
 		mapper.pipe = env.pipe
-		spec.Rules = []*Rule{{When: &When{PacketType: Publish}, Pipeline: "c15-publish"}}
+		spec.Rules = append(spec.Rules, &Rule{When: &When{PacketType: Publish}, Pipeline: "c15-publish"})
 	}
 	env.store = newStorage(nil)
 	env.b = newBroker(spec, env.store, mapper, func(string, string) ([]string, error) { return nil, nil })
@@ -148,6 +218,7 @@ func c15NewEnv(withPipe bool, publishLimit *RateLimit) *c15Env {
 // close shuts everything down and waits until the broker's goroutines are gone
 // (so that the goroutine-dump quiescence test of the next case is not disturbed).
 func (e *c15Env) close() bool {
+	e.gate.open()
 	c15Quiesce(e.open)
 	for _, c := range e.clis {
 		c.closeSock()
